@@ -49,7 +49,8 @@ m = {
  "engines": [
   {"name": "lockstep", "path": "harness/src/lockstep.rs", "serves_properties": [i for i in ids if i in ("C01","C02","C03","C04","C05","C06","C08","C09","C10","C11","C15","C16","C17","C18","C19")], "kind_free_text": "E1/E2: proptest-generated (config x op sequence) cases executed in lock-step on a parked sync/async cache and on a reference model, virtual clock by clock_gettime interposition"},
   {"name": "component", "path": "harness/src/comp.rs", "serves_properties": ["C07","C13","C14","C17","C18"], "kind_free_text": "E4: proptest generators driving the crate-private estimators and the policy through the verif facade"},
-  {"name": "stress", "path": "harness/src/stress.rs", "serves_properties": ["C01","C02","C06","C08","C10","C12","C17","C19","C20"], "kind_free_text": "E3: generated multi-thread scripts against caches with real workers, in child processes, history invariants at quiescence, state evidence for hangs"},
+  {"name": "stress", "path": "harness/src/stress.rs", "serves_properties": ["C01","C02","C05","C06","C08","C09","C10","C12","C17","C19","C20"], "kind_free_text": "E3: generated multi-thread scripts against caches with real workers (sync, tokio mt/ct, async-std, thread-per-task), in child processes; kinds Invariants, Barrier, WaitRace, Close, Config, Reclaim, Validated; history invariants inline and at quiescence, state evidence for hangs"},
+  {"name": "fuzz", "path": "fuzz/", "serves_properties": ["C01","C02","C03","C04","C05","C06","C07","C08","C09","C11","C13","C14","C15","C16","C17","C18"], "kind_free_text": "E5: cargo-fuzz/libFuzzer targets `lockstep` and `estimators` behind hand-written arbitrary::Unstructured decoders, oracle inside the target, run by the thorough tier (VERIF_FUZZ_SECS, default 90 s)"},
  ],
  "checks": [],
  "notes": "Every check is `./check <ID> <quick|thorough>`; exit 0 held, 1 with a VIOLATION line, 2 inconclusive/infrastructure. Replays: ./check <ID> --replay <file>. Known findings: known_findings.json.",
@@ -66,7 +67,7 @@ for i in ids:
           "replay_cmd_template": "./check %s --replay {path}" % i,
           "engine": "sv (harness/)",
           "level_claimed": {"category": "exploration", "text": text, "design_ref": ref},
-          "level_note": "Generated search, not proof: holds on every generated case of this run. Trusted base: the reference model/oracles in /verif/harness, the cfg-guarded hooks in /repo (parked processors, snapshots), proptest, and the clock_gettime interposition.",
+          "level_note": "Generated search, not proof: holds on every generated case of this run. Every run starts with a replay tier (saved counterexamples in findings/ and regress/); the thorough tier multiplies the case counts and, where a fuzz target applies, adds a libFuzzer campaign. Trusted base: the reference model/oracles in /verif/harness, the cfg-guarded hooks in /repo (parked processors, snapshots, yield points), proptest, libFuzzer, and the clock_gettime interposition.",
           "technique": tech,
         })
     else:
